@@ -498,6 +498,23 @@ def _logical_node(fn, blk):
     return m.get(c, m.get(fn._strip0(c)) if c is not None else None)
 
 
+# calls a predicate helper may make and still be a plain condition over its arguments (value extractors, string tests)
+PURE_IN_PREDICATES = {"__errno_location", "ERR_GET_LIB", "ERR_GET_REASON", "strlen", "strcmp", "strncmp", "__builtin_expect"}
+
+
+def _is_predicate_helper(d):
+    """a static function whose body is one `return <condition>;` over its parameters, errno and fields - no calls"""
+    v = getattr(d, "_is_pred", None)
+    if v is None:
+        rets = [n for n in d.nodes.values() if n["k"] == "return"]
+        calls = [n for n in d.nodes.values() if n["k"] == "call" and (n.get("callee") or "") not in PURE_IN_PREDICATES]
+        stores = [n for n in d.nodes.values() if (n["k"] == "bin" and n["op"] in ("=", "+=", "-=", "|=", "&=")) or n["k"] == "decl"]
+        v = bool(d.static and len(rets) == 1 and not calls and not stores and rets[0].get("sub") is not None
+                 and _cond_shape(d, rets[0]["sub"]) is not None and len(d.nodes) < 60)
+        d._is_pred = v
+    return v
+
+
 def _cond_shape(fn, nid):
     """the node of a condition-shaped expression (logical, comparison, negation) behind parens and implicit casts - no
     copy propagation - or None"""
@@ -710,6 +727,10 @@ def _elem(rule, fn, st, nid, depth, budget, stack, exits, top, blk=None):
             st = st.drop_mem()
         # noreturn callee ends the path (block is flagged noreturn too)
         targets = [d for d in defs if rule.inline(fn, nid, d)] if depth < rule.max_depth else []
+        # a predicate helper (`static bool would_block(int rc) { return rc < 0 && errno == EAGAIN; }`) is a named
+        # condition: explored in place whatever the rule's inlining policy, like the macro it could have been
+        if not targets and len(defs) == 1 and not exts and depth < max(rule.max_depth, 1) + 1 and _is_predicate_helper(defs[0]):
+            targets = list(defs)
         targets = [d for d in targets if d not in stack]
         r = rule.on_call(fn, st, nid, defs, exts)
         if r is C.DEAD:
@@ -835,13 +856,17 @@ def _elem(rule, fn, st, nid, depth, budget, stack, exits, top, blk=None):
             for want in (True, False):
                 s2 = _assume(rule, fn, st, blk, cs, want)
                 if s2 is not None:
-                    rule.on_exit(fn, s2, nid, POS if want else ZERO, top)
+                    if top or not _is_predicate_helper(fn):        # the exits of a predicate explored in place are no rule's business
+                        rule.on_exit(fn, s2, nid, POS if want else ZERO, top)
                     exits.add((St(frozenset(), s2.errno, s2.user), POS if want else ZERO))
             return []
         rc = _class_of(fn, st, n["sub"]) if n.get("sub") is not None else None
         if rc is None and cs is not None:
             t = _eval_cond(fn, st, cs)
             rc = None if t is None else (POS if t else ZERO)
+        if not top and _is_predicate_helper(fn):
+            exits.add((St(frozenset(), st.errno, st.user), rc))
+            return []
         rule.on_exit(fn, st, nid, rc, top)
         exits.add((St(frozenset(), st.errno, st.user), rc))
         return []
